@@ -210,6 +210,11 @@ example : (run init [Op.pop 0, Op.pop 1, Op.push 7 70, Op.pop 0, Op.upop 3, Op.p
     [⟨⟨1, 1⟩, Out.exc 3⟩, ⟨⟨3, 1⟩, Out.val ⟨2, 7, 71⟩⟩, ⟨⟨4, 1⟩, Out.canceled⟩, ⟨⟨0, 0⟩, Out.val ⟨0, 7, 70⟩⟩] := by
   decide
 
+/-- non-vacuity of disjunct (d): two pops wait, a push throws, the oldest completes as canceled, the queue lives on -/
+example : (run init [Op.pop 0, Op.pop 1, Op.pushthrow, Op.deliver 0, Op.push 0 5]).completed = [⟨⟨0, 0⟩, Out.canceled⟩]
+    ∧ (run init [Op.pop 0, Op.pop 1, Op.pushthrow, Op.deliver 0, Op.push 0 5]).alive = true
+    ∧ (run init [Op.pop 0, Op.pop 1, Op.pushthrow, Op.deliver 0, Op.push 0 5]).throws = [⟨0, 0⟩] := by decide
+
 end Cocls.Q
 
 /-! ## `queue<void>`: a counting semaphore whose count is conserved -/
